@@ -345,7 +345,9 @@ pub fn json_to_js_value_with_guard(
             let obj = interp.create_object(guard);
             for (key, value) in map {
                 let js_value = json_to_js_value_with_guard(interp, value, guard)?;
-                let interned_key = PropertyKey::String(interp.intern(key));
+                // Canonical array-index keys ("0", "42") must be stored as index keys, which
+                // is what every later lookup (obj["0"], obj[0], Object.keys + obj[k]) uses
+                let interned_key = interp.property_key(key);
                 obj.borrow_mut().set_property(interned_key, js_value);
             }
             JsValue::Object(obj)
